@@ -25,6 +25,9 @@ type Engine struct {
 	roots  []*ssa.Function
 	// contract-less unexported helpers decided only at their call sites
 	inlineOnly []string
+	// new bare name -> bare name the contracts use, for functions that were renamed
+	renamed      map[string]string
+	renamedNotes []string
 	// package-level slices initialised from a literal of constants and never written afterwards
 	constTables map[string][]*ssa.Const
 	strIDs map[string]int
@@ -112,6 +115,86 @@ func LoadEngine(repo string, contractsPath string) (*Engine, error) {
 			e.roots = append(e.roots, fn)
 		}
 	}
+	// A function under contract that was renamed: the contract follows it when the match is unambiguous (same
+	// receiver type, same parameter names as the contract header, no contract of its own, not known before).
+	e.renamed = map[string]string{}
+	for _, k := range sortedKeys(cs.Funcs) {
+		fc := cs.Funcs[k]
+		if strings.Contains(k, ":") || strings.Contains(k, "$") {
+			continue
+		}
+		if _, ok := e.funcs[k]; ok {
+			continue
+		}
+		recv := ""
+		if i := strings.LastIndex(k, "."); i >= 0 {
+			recv = k[:i]
+		}
+		hdr := fc.Header
+		var want []string
+		if a, b := strings.LastIndex(hdr, "("), strings.LastIndex(hdr, ")"); a >= 0 && b > a {
+			for _, p := range strings.Split(hdr[a+1:b], ",") {
+				if p = strings.TrimSpace(p); p != "" {
+					want = append(want, p)
+				}
+			}
+		}
+		var cands []string
+		for ck, fn := range e.funcs {
+			if fn.Parent() != nil || fn.Pkg != e.pkg {
+				continue
+			}
+			if _, has := cs.Funcs[ck]; has {
+				continue
+			}
+			crecv := ""
+			if i := strings.LastIndex(ck, "."); i >= 0 {
+				crecv = ck[:i]
+			}
+			if crecv != recv {
+				continue
+			}
+			var have []string
+			for i, p := range fn.Params {
+				if i == 0 && fn.Signature.Recv() != nil {
+					continue
+				}
+				have = append(have, p.Name())
+			}
+			if strings.Join(have, ",") != strings.Join(want, ",") {
+				continue
+			}
+			// the functions of the package that the contract's own hooks mention must be called by the candidate
+			ok := true
+			for _, h := range fc.Hooks {
+				fs := strings.Fields(h.Event)
+				if len(fs) != 2 || (fs[0] != "call" && fs[0] != "ret") {
+					continue
+				}
+				inPkg := false
+				for fk := range e.funcs {
+					if bareName(fk) == fs[1] {
+						inPkg = true
+					}
+				}
+				if inPkg && !staticallyCalls(e, fn, fs[1]) {
+					ok = false
+				}
+			}
+			if ok {
+				cands = append(cands, ck)
+			}
+		}
+		if len(cands) == 1 {
+			nk := cands[0]
+			delete(cs.Funcs, k)
+			fc.Key = nk
+			cs.Funcs[nk] = fc
+			e.renamed[bareName(nk)] = bareName(k)
+			e.renamedNotes = append(e.renamedNotes, fmt.Sprintf("contract of %s follows the renamed function %s", k, nk))
+		}
+	}
+
 	// An unexported helper without a contract block that is only ever called directly by other functions of
 	// the package is not verified on its own (with arbitrary arguments and lock state): it is inlined at each call
 	// site and its obligations are decided there, where the arguments are known. It stays a root if it is used
@@ -413,4 +496,44 @@ func (e *Engine) findConstTables() {
 	if os.Getenv("GOVC_DEBUG") != "" {
 		fmt.Fprintf(os.Stderr, "const tables: %d candidates, bad=%v, found=%d\n", len(cand), len(bad), len(e.constTables))
 	}
+}
+
+
+func staticallyCalls(e *Engine, fn *ssa.Function, bare string) bool {
+	seen := map[*ssa.Function]bool{}
+	var visit func(f *ssa.Function, depth int) bool
+	visit = func(f *ssa.Function, depth int) bool {
+		if seen[f] || depth > 3 {
+			return false
+		}
+		seen[f] = true
+		for _, b := range f.Blocks {
+			for _, in := range b.Instrs {
+				ci, ok := in.(ssa.CallInstruction)
+				if !ok {
+					continue
+				}
+				sc := ci.Common().StaticCallee()
+				if sc == nil || sc.Pkg != e.pkg {
+					continue
+				}
+				if bareName(e.funcKey(sc)) == bare {
+					return true
+				}
+				// thin wrappers (becomeFollower -> demote) and closures
+				if _, has := e.cs.Funcs[e.funcKey(sc)]; !has || e.cs.Funcs[e.funcKey(sc)].Flags["inline"] {
+					if visit(sc, depth+1) {
+						return true
+					}
+				}
+			}
+		}
+		for _, af := range f.AnonFuncs {
+			if visit(af, depth+1) {
+				return true
+			}
+		}
+		return false
+	}
+	return visit(fn, 0)
 }
